@@ -184,6 +184,9 @@ def run_one(args):
                 'obligations': obs, 'inlined': [list(x) for x in r.inlined], 'time': round(time.time() - t0, 3),
                 'assumptions': c.assumptions, 'sources': src, 'bounded': c.bounded_note,
                 'used_contracts': sorted(['%s:%s' % k for k in I.used_contracts]),
+                'used_contract_notes': sorted({n for k in I.used_contracts for mc in I.contracts.get(k, []) for n in
+                                               (mc.assumptions or ['%s: used through its contract at call sites (assumed there; its body is checked under its own contract where one is listed)' % mc.name])}),
+                'ext_models': sorted(getattr(I, 'ext_loaded', ())),
                 'covers': getattr(r, 'covers', None), 'crosscheck': xc}
     except Exception:
         return {'idx': idx, 'status': 'error', 'message': traceback.format_exc(), 'obligations': [],
@@ -370,6 +373,7 @@ def main(argv=None):
     fns = []
     sources = {}
     assumptions = set()
+    generic_models = set()
     for r in results:
         if r['status'] == 'error':
             errors.append(r)
@@ -380,6 +384,14 @@ def main(argv=None):
         sources.update(r.get('sources', {}))
         for x in r.get('assumptions', []):
             assumptions.add(x)
+        for x in r.get('used_contract_notes', []):
+            assumptions.add(x)
+        for m in r.get('ext_models', []):
+            n = external_note(m)
+            if n is None:
+                generic_models.add(m.split('.')[0])
+            else:
+                assumptions.add(n)
         if r['status'] == 'undecided':
             undecided.append({'function': r['name'], 'reason': r['message']})
         is_b = bool(r.get('bounded'))
@@ -484,6 +496,9 @@ def main(argv=None):
         exit_code = 2
     for u in undecided:
         print('UNDECIDED %s' % json.dumps(u))
+    if generic_models:
+        assumptions.add('models of library modules (pyvc/models.py, contracts/lib.py), assumed to agree with CPython on the members the code uses: '
+                        + ', '.join(sorted(generic_models)))
     wall = time.time() - t0
     ev = {
         'property_id': pid, 'tier': tier, 'seed': seed, 'level': 'proof',
@@ -534,11 +549,23 @@ def main(argv=None):
     return exit_code
 
 
+def external_note(dotted):
+    """the assumed contract of a module outside /repo, as the evidence lists it"""
+    try:
+        from contracts.lib import EXTERNAL
+    except Exception:
+        EXTERNAL = {}
+    top = dotted.split('.')[0]
+    if top in EXTERNAL:
+        return 'assumed contract of %s (contracts/lib.py): %s' % (top, EXTERNAL[top])
+    return None
+
+
 BASE_TRUST = [
     'pyvc (own VC generator: symbolic interpreter over the real source; cross-checked against CPython, mutation self-test)',
     'z3 unsat answers',
     'Python int = mathematical Int; float = exact Real in symbolic positions (no rounding/overflow/NaN) [R model]',
-    'CPython executes the source as the language reference says; generator expressions evaluated eagerly',
+    'CPython executes the source as the language reference says; generator expressions and generator functions evaluated eagerly (run to their end where they are created / called)',
 ]
 
 if __name__ == '__main__':
